@@ -353,7 +353,7 @@ def check_mujoco_transparency(ck, names):
 def main():
     ck = Check("C12", "transformations transparent, lanes never mix")
     ck.mode = "REAL"
-    ck.bound(envs=2, rollout_steps=2, batch=2, actions=["Discrete(3)", "Box(2)"] if ck.thorough else ["Discrete(3)", "Box(2) (on-policy)"])
+    ck.bound(envs=2, rollout_steps=2, batch=2, replay_sampling="E=2 stacked buffers, capacities 2-3 (2-4 thorough), symbolic fill levels, cells and draw", actions=["Discrete(3)", "Box(2)"] if ck.thorough else ["Discrete(3)", "Box(2) (on-policy)"])
     ck.stub("environment and policy uninterpreted (lanes statement)", *stubs.ODE_NOTES, "PRNG samplers: contract stubs (uf of the key), keys: free algebra",
             "probe subclasses cut `train` out of iteration() to expose the collected data (the collection code is the real one)")
     ck.out("floating-point reassociation differences between modes", "MuJoCo component equivalence under vmap is shown with the physics engine stubbed (2 environments quick, all 11 thorough); G1 components and the real MJX kernels under vmap are outside the claim",
@@ -364,6 +364,12 @@ def main():
     for kind in (("discrete", "box") if ck.thorough else ("box",)):
         with ck.section(f"offpolicy.{kind}"):
             check_offpolicy_lanes(ck, kind)
+    # the rows handed to training from the stacked per-environment replay buffers: every leaf of a sampled row comes from one slot of ONE environment
+    # (the obligations of C06's vectorised sampling section, E=2 with independent symbolic fill levels, discharged here as part of `never mix`)
+    for C_, B_ in (((2, 1), (3, 2)) if not ck.thorough else ((2, 1), (2, 3), (3, 2), (4, 5))):
+        with ck.section(f"offpolicy.training_rows@E=2,C={C_},B={B_}"):
+            from props import C06
+            C06.sec_sample(ck, C_, 2, B_)
     with ck.section("env_transparency"):
         check_env_transparency(ck)
     mj = ["HalfCheetah", "InvertedPendulum"] if not ck.thorough else ["Ant", "HalfCheetah", "Hopper", "Humanoid", "HumanoidStandup", "InvertedDoublePendulum", "InvertedPendulum", "Pusher", "Reacher",
